@@ -83,15 +83,19 @@ class Rig:
         return False
 
 
-def deliver(mode, stream, cuts, timeouts):
+def deliver(mode, stream, cuts, timeouts, empties=()):
     """Deliver stream cut at `cuts` (sorted positions), firing the completion timeout after the chunks whose
-    index is in `timeouts`; always fire it at the end.  Returns an event for InputTrace."""
+    index is in `timeouts`; always fire it at the end.  After the chunks whose index is in `empties` the input
+    watcher runs once more with nothing to read (a degenerate cut: spurious wake-up, resize pipe).
+    Returns an event for InputTrace."""
     rig = Rig(mode)
     e = {"exc": "", "stuck": False, "midtimeout": False}
     try:
         bounds = [0, *cuts, len(stream)]
         for i in range(len(bounds) - 1):
             rig.feed(list(stream[bounds[i]:bounds[i + 1]]))
+            if i in empties and i < len(bounds) - 2:
+                rig.feed([])
             if i in timeouts and i < len(bounds) - 2:
                 if rig.timeout():
                     e["midtimeout"] = True
@@ -125,7 +129,12 @@ def trace_for(rng, mode, stream, nfrag, refcheck=True, all_cuts=False):
         if n > 1:  # byte by byte
             frags.append((list(range(1, n)), []))
     for cuts, tmo in frags:
-        ev.append(dict(deliver(mode, stream, cuts, tmo), t="frag", cuts=cuts, timeouts=tmo))
+        ev.append(dict(deliver(mode, stream, cuts, tmo), t="frag", cuts=cuts, timeouts=tmo, empties=[]))
+    # the same cuts with an empty read after every chunk (no timeout in between): nothing pending may be lost
+    for cuts, tmo in frags[:: (1 if (all_cuts and n <= 5) else 3)]:
+        if cuts:
+            em = list(range(len(cuts)))
+            ev.append(dict(deliver(mode, stream, cuts, [], em), t="frag", cuts=cuts, timeouts=[], empties=em))
     return {"mode": mode, "stream": stream, "refcheck": refcheck, "ev": ev}
 
 
@@ -184,7 +193,7 @@ def _handle(chk, traces, res):
         s = bytes(tr["stream"])
         sig = {"mode": tr["mode"], "event": e["t"], "exc": e["exc"], "sgr_mouse": s.startswith(b"\x1b[<") or b"\x1b[<" in s,
                "high_bytes": any(b >= 128 for b in s)}
-        chk.reject(f"C05.{why}", sig, {"mode": tr["mode"], "stream": tr["stream"], "cuts": e.get("cuts"), "timeouts": e.get("timeouts"),
+        chk.reject(f"C05.{why}", sig, {"mode": tr["mode"], "stream": tr["stream"], "cuts": e.get("cuts"), "timeouts": e.get("timeouts"), "empties": e.get("empties"),
                                        "observed": e})
 
 
@@ -257,7 +266,8 @@ def replay(chk, path):
     rng = random.Random(1)
     ev = [dict(deliver(rp["mode"], rp["stream"], [], []), t="whole")]
     if rp.get("cuts") is not None:
-        ev.append(dict(deliver(rp["mode"], rp["stream"], rp["cuts"], rp.get("timeouts") or []), t="frag", cuts=rp["cuts"], timeouts=rp.get("timeouts") or []))
+        ev.append(dict(deliver(rp["mode"], rp["stream"], rp["cuts"], rp.get("timeouts") or [], rp.get("empties") or []), t="frag", cuts=rp["cuts"],
+                       timeouts=rp.get("timeouts") or [], empties=rp.get("empties") or []))
     tr = {"mode": rp["mode"], "stream": rp["stream"], "refcheck": rp["mode"] != "wide", "ev": ev}
     res = tlc.validate("InputTrace", [tr])
     chk.add_tv("replay", res)
